@@ -690,6 +690,8 @@ DB = "nostr_relay/storage/db.py"
 BASE = "nostr_relay/storage/base.py"
 
 MUTANTS = [
+    M("c19-clientid-relabel", "nostr_relay/util.py", "    def __hash__(self):\n        return hash(self._idstr)\n", "    def __hash__(self):\n        return hash(self._idstr)\n\n    def label(self, text):\n        self._idstr = text + self._idstr\n", "C19.cleanup"),
+    M("c19-nested-quantifier", "nostr_relay/auth.py", "    def get_challenge(self, remote_addr):", "    def _host_ok(self, url):\n        import re\n\n        return re.fullmatch(r\"wss?://(?:[a-z0-9-]+\\.?)+\", url) is not None\n\n    def get_challenge(self, remote_addr):", "C19.regex"),
     M("c19-average-frame-size", "nostr_relay/web.py", "    return sent\n", "    log.debug(\"avg %d\", sent // n_frames)\n    return sent\n", "C19.arith"),
     M("c19-authenticate-returns-none", "nostr_relay/auth.py", "        if not isinstance(auth_event_json, dict):\n            raise AuthenticationError(\"Invalid\")", "        if not isinstance(auth_event_json, dict):\n            return None", "C19.token"),
     M("c19-cleanup-per-command-table", "nostr_relay/rate_limiter.py", "                if (not ts) or (now - ts[0]) > max_interval:", "                if (not ts) or (now - ts[0]) > {c: max(r)[0] for c, r in self.rules[\"ip\"].items()}[cmd]:", "C19.limiter"),
